@@ -30,6 +30,11 @@ for spec in specs:
             pl = batching.ParameterList()
             for k, v in params.items():
                 pl.add_parameter(k, v)
+            if spec.get('pl_history'):
+                # the same ParameterList object was used before with one more parameter, which has been removed since
+                pl.add_parameter('zeta', [1, 2, 3])
+                pl.build()
+                pl.remove_parameter('zeta')
             params = pl
         kw = {}
         if spec.get('max_timesteps') is not None:
